@@ -127,9 +127,12 @@ Fixpoint tmap_get (k : Z) (d : list (Z * bytes)) : option bytes :=
 Definition terminal_map (devs : list (bytes * option Z)) : list (Z * bytes) :=
   fold_left (fun d e => match snd e with Some rdev => tmap_set rdev (fst e) d | None => d end) devs [].
 
-Definition terminal (devs : list (bytes * option Z)) (data : bytes) : outcome (option bytes) :=
+(* [masked] = true is the code as it is now (tty_nr &= 0xFFFFFFFF, commit 2414912);
+   false = the code before that repair, which looked the signed number up. *)
+Definition terminal (masked : bool) (devs : list (bytes * option Z)) (data : bytes) : outcome (option bytes) :=
   do st <- parse_stat_file data;
   do n <- py_int (ps_ttynr st);
+  let n := if masked then Z.land n 4294967295 else n in
   Val (tmap_get n (terminal_map devs)).
 
 (* Process._is_zombie: data[rpar + 2 : rpar + 3] == b"Z" *)
